@@ -11,7 +11,7 @@ import asyncio
 import math
 from typing import Any
 
-from . import vloop
+from . import uvrun, vloop
 from .replay import Recorder, ScenarioController, ensure_repo_on_path
 
 INF = 99
@@ -24,7 +24,7 @@ def scenario_of(hist: list, nt: int) -> dict:
         if h["w"] == "t":
             tasks[str(h["t"])].append([h["c"], h["a"], h["b"], h["d"]])
         else:
-            env.append({"t": h["t"], "c": h["c"], "at": h["at"]})
+            env.append({"t": h["t"], "c": h["c"], "at": h["at"], "cyc": h.get("cyc", 0)})
     env.sort(key=lambda a: a["at"])
     return {"tasks": tasks, "env": env}
 
@@ -41,7 +41,7 @@ def _dl(v: float) -> int:
     return int(v)
 
 
-def run_scenario(scn: dict, *, eager: bool = False) -> dict:
+def run_scenario(scn: dict, *, eager: bool = False, uv: bool = False) -> dict:
     ensure_repo_on_path()
     import anyio
     from anyio.lowlevel import cancel_shielded_checkpoint, checkpoint
@@ -92,7 +92,9 @@ def run_scenario(scn: dict, *, eager: bool = False) -> dict:
         late = sum(1 for (s, c) in st["exited"] if s.cancel_called and not c)
         loop = st["loop"]
         emit(ev="quiescent", blocked=sorted(st["inop"]), timers=(st["timers_at_end"] if alldone else loop.live_timers()),
-             alldone=1 if alldone else 0, tail=(loop.cycle - st["lastdone"]) if alldone else 0, late=late)
+             alldone=1 if alldone else 0,
+             tail=(loop.cycle - st["lastdone"]) if alldone and not isinstance(loop, uvrun.UVView) else 0,
+             late=late)
         if alldone and not st["fut"].done():
             st["final"] = {"nh": loop.nhandles, "now": int(loop.time()),
                            "out": [("blocked" if not x.done() else "cancelled" if x.cancelled() and _was_anyio(x)
@@ -298,7 +300,7 @@ def run_scenario(scn: dict, *, eager: bool = False) -> dict:
                 st["timers_at_end"] = st["loop"].live_timers()
 
     async def main() -> None:
-        loop = st["loop"] = asyncio.get_running_loop()
+        loop = st["loop"] = uvrun.view(asyncio.get_running_loop())
         st["event"] = anyio.Event()
         st["scopes"] = {t: anyio.CancelScope() for t in range(1, nt + 1)}
         st["tasks"] = {}
@@ -309,7 +311,7 @@ def run_scenario(scn: dict, *, eager: bool = False) -> dict:
             st["tasks"][t] = task
         await st["fut"]
 
-    loop, _res, err = vloop.run(main, ctl, eager=eager, max_handles=5000)
+    loop, _res, err = (uvrun.run if uv else vloop.run)(main, ctl, eager=eager, max_handles=5000)
     rec.closed = True
     flags = {"deadlock": isinstance(err, vloop.Deadlock), "budget": loop.budget_exceeded,
              "error": None if err is None or isinstance(err, (vloop.Deadlock, vloop.BudgetExceeded))
